@@ -29,6 +29,16 @@ def real(quick_s, thorough_s, extra=(), tiers=("quick", "thorough"), n2="verif")
             "budget_ms": {"quick": quick_s * 1000, "thorough": thorough_s * 1000}, "tiers": tiers}
 
 
+def miri(ncases, extra=()):
+    """Thorough only: a bounded enumeration under the Miri interpreter (16 processes x ncases inputs)."""
+    return {"engine": "pure", "variant": "miri", "tiers": ("thorough",), "budget_ms": {"quick": 0, "thorough": 3600 * 1000},
+            "extra": ["--max-cases", str(ncases), "--keep-stdout", "--utf8-only"] + list(extra)}
+
+
+def asan_pure(thorough_s):
+    return pure(0, thorough_s, variant="asan", tiers=("thorough",))
+
+
 def sim(quick_s, thorough_s):
     return {"engine": "sim", "variant": "verif", "budget_ms": {"quick": quick_s * 1000, "thorough": thorough_s * 1000}}
 
@@ -41,7 +51,7 @@ PROPS = {
         "assumptions": SIM_ASSUME,
     },
     "C04": {
-        "stages": [sim(20, 360), real(8, 180)],
+        "stages": [sim(20, 360), real(8, 180), real(0, 120, tiers=("thorough",), n2="tsan")],
         "rule": "wide random DAGs (4-24 steps) with 0-3 pools of depth 0-3 plus console, -j 1-8, failures that free slots, policies that keep pools full; online monitor at every start (|running| <= j, per-pool <= depth, using the generator's pool assignment) and at every scheduler iteration (n2's own counters == harness running set); non-trivial = a limit was binding at some instant (something queued while -j or its pool was full) and commands ran; distinct by hash(shape, config, event sequence)",
         "must_observe": ["events", "limit_binding_instants", "undeclared_pool_cases"],
         "assumptions": SIM_ASSUME,
@@ -84,7 +94,7 @@ PROPS = {
     },
     "C07": {
         "level": "fault_enumeration",
-        "stages": [sim(30, 480), real(10, 240)],
+        "stages": [sim(30, 480), real(10, 240), real(0, 120, tiers=("thorough",), n2="asan")],
         "rule": "for generated histories (0-2 complete builds with edits, then a build that is abandoned): every db write of that build x every byte count 0..len that reaches the file (quick: all counts for records <= 12 bytes, first/last 4 and a third of the middle counts for longer ones; thorough: all), fault injected at the hook in front of every append; then a fault-free build (must load the log, run exactly the model's prediction with the record store = completely written records, and what n2 loaded per step must equal what an independent reader of the file finds), the log must then be a well-formed file, and a third build must be a no-op; non-trivial = crash strictly inside a record; distinct by (graph shape, write index, byte count)",
         "must_observe": ["crash_points", "crash_points_mid_record"],
         "assumptions": SIM_ASSUME + ["crash model: a byte prefix of what n2 appends reaches the file (no reordering/loss of earlier writes)"],
@@ -96,7 +106,7 @@ PROPS = {
         "assumptions": SIM_ASSUME,
     },
     "C09": {
-        "stages": [sim(20, 420), pure(5, 60), real(8, 180)],
+        "stages": [sim(20, 420), pure(5, 60), real(8, 180), real(0, 120, tiers=("thorough",), n2="asan")],
         "rule": "histories in which a command's reported dependency set grows, shrinks, overlaps declared and order-only inputs, repeats under several spellings (./x, a/../x, x), names missing files, with header edits/deletions in between; exact run-set comparison with the reference model (dep set = canonicalised, de-duplicated, minus declared dirtying inputs; replaced wholesale on success), recorded dep lists decoded from the log writes and compared, clean-build content comparison; non-trivial as C02",
         "must_observe": ["events", "noop_rebuilds_checked"],
         "assumptions": SIM_ASSUME + ["E1 hands the reported list to n2 directly; depfile/showIncludes parsing is covered by C15 and the pure stage"],
@@ -108,7 +118,7 @@ PROPS = {
         "assumptions": SIM_ASSUME + ["a manifest named as a target is treated as built in phase 1 (n2's documented design); its closure is not re-examined against the new text"],
     },
     "C10": {
-        "stages": [pure(15, 240)],
+        "stages": [pure(15, 240), asan_pure(120), miri(40)],
         "rule": "abstract manifests (1-12 statements: rule/build with all four input sections and implicit outputs/default/pool/include/subninja/file-level bindings, names with spaces, colons, dollars, UTF-8, ./ ../ // components) rendered in 4 (quick) / 8 (thorough) concrete spellings each (spaces, indentation, $-newline continuations between tokens and inside values, $x vs ${x}, $-escapes, comments and blank lines, empty sections) and loaded through n2's loader; the loaded graph (steps in order, each path with role and position, command, description, depfile, deps, rspfile, pool, defaults, pools, builddir) must equal the reference evaluation of the abstract manifest and must not depend on the spelling; non-trivial = a build statement with >= 2 non-empty input sections or a path needing an escape; distinct by hash(abstract manifest) x hash(spelling)",
         "must_observe": ["abstract_manifests", "manifests_with_includes"],
         "assumptions": PURE_ASSUME,
@@ -120,37 +130,37 @@ PROPS = {
         "assumptions": PURE_ASSUME,
     },
     "C12": {
-        "stages": [pure(30, 420), real(6, 120)],
+        "stages": [pure(30, 420), real(6, 120), asan_pure(120), miri(400), real(0, 90, extra=["--wrap", "valgrind -q --error-exitcode=99 --trace-children=no"], tiers=("thorough",), n2="release")],
         "rule": "(i) exhaustive: all sequences of <= 4 (quick) / 5 (thorough) tokens over 34 Ninja tokens (keywords, identifiers, spaces, newline, : | || |@ = $ '$ ' $-newline ${ } $x # tab NUL CR e-acute 0xff . .. / digit), each with and without a final newline, loaded from memory; (ii) mutations of valid generated manifests (truncate at a byte, delete/duplicate/swap ranges, raw bytes, dropped final newline, 10-800 character lines of multi-byte characters around an error, paths of 1-200 components, empty expansions); (iii) raw random bytes; (iv) depfile bytes; (v) deep/empty paths straight into the canonicaliser; (vi) include/subninja of itself, of a cycle, of a directory, of a missing file, of an empty expansion. Oracle: no panic, no abort (ub_checks/overflow/stack overflow kill the worker and are attributed by bisection), Ok or a non-empty diagnostic; parse errors must have the `parse error: ...`, `<file>:<line>: excerpt`, caret-line shape with the line in range; non-trivial = input that gets past the first statement keyword; evidence lists the distinct parser outcomes reached",
         "must_observe": ["exhaustive_inputs", "mutated_inputs", "include_cycle_inputs", "path_inputs", "depfile_inputs"],
         "assumptions": PURE_ASSUME + ["process-level clauses (exit status 1, `n2: error:` prefix) are checked by the black-box stage when present"],
     },
     "C13": {
-        "stages": [pure(12, 240), real(6, 120)],
+        "stages": [pure(12, 240), real(6, 120), asan_pure(120), miri(1500)],
         "rule": "exhaustive over {a . / \\}^n for n <= 9 (quick) / 11 (thorough) and {a b . /}^n for n <= 8 / 10, then random paths of 1-60 components (UTF-8 names, .., ., empty, mixed separators) and re-spellings (inserted ./, x/../, doubled separators before the last component) which must canonicalise identically; checks: equals the independent component-list canonicaliser, idempotent, never longer, no ., empty or name/.. component left, .. only leading, same location; assert_unchecked/set_len preconditions are checked by the build profile; non-trivial = canon(p) != p",
         "must_observe": ["exhaustive_inputs", "random_inputs", "respell_pairs"],
         "assumptions": PURE_ASSUME,
     },
     "C14": {
-        "stages": [pure(12, 180)],
+        "stages": [pure(12, 180), asan_pure(120)],
         "rule": "exhaustive: every (explicit, implicit) output list of one statement with 1-4 explicit and 0-3 implicit entries over 3 names containing a repeat (193 shapes), repeats spelled canon-equivalently: must load, print the `is repeated in output list` warning (stdout captured) and list each output once, explicit iff first seen in the explicit section; random: generated manifests with an output of one statement injected (any spelling, explicit or implicit, possibly across include/subninja) into a later statement: must be rejected with an error citing both statements' file:line; non-trivial = multiplicity >= 3, a repeat straddling the explicit/implicit boundary, a non-identical spelling or a second producer in another file",
         "must_observe": ["exhaustive_inputs", "cross_statement_inputs"],
         "assumptions": PURE_ASSUME,
     },
     "C15": {
-        "stages": [pure(15, 240)],
+        "stages": [pure(15, 240), asan_pure(120), miri(600)],
         "rule": "exhaustive totality over all strings of length <= 9 (quick) / 10 (thorough) over {a, space, ':', backslash, newline}; structured depfiles of 1-6 `target: prerequisites` entries rendered with 0-3 spaces before the colon, spaces and/or backslash-newline continuations with indentation between prerequisites, blank lines, trailing spaces, optional final newline, Windows-style C:/x\\y names, entries without prerequisites, repeated targets; read through n2's real depfile reader from a file and compared with the listed prerequisites in order (repeated targets: grouped under the first occurrence); missing depfile = empty; malformed content must fail with a parse error naming the depfile; non-trivial = >= 2 entries or a continuation",
         "must_observe": ["exhaustive_inputs", "structured_inputs", "missing_depfile_checks", "malformed_rejected"],
         "assumptions": PURE_ASSUME,
     },
     "C20": {
-        "stages": [pure(15, 240)],
+        "stages": [pure(15, 240), asan_pure(120), miri(60)],
         "rule": "exhaustive: strings of <= 6 (quick) / 7 (thorough) characters over {a, e-acute, katakana BI, emoji} with 0/3/9 bytes of ASCII padding x columns 10..len+15 x seconds {0,2,3,99,100,999,1000,99999,10^6} through task_message, every max through truncate, all state-count vectors with total <= 12 through progress_bar(40); random long strings (combining marks, raw non-UTF-8 bytes through from_utf8_lossy), widths 10-300, large counts; oracle: no panic, result = prefix at a character boundary + ... + time note, at most max(cols, note+3) bytes, unchanged iff it fits, bar exactly 40 bytes; non-trivial = the naive cut position falls inside a multi-byte character",
         "must_observe": ["exhaustive_strings", "exhaustive_count_vectors", "random_inputs"],
         "assumptions": PURE_ASSUME + ["end-to-end pty runs are a separate black-box stage when present"],
     },
     "C16": {
-        "stages": [real(25, 480, extra=["--strace", "1"])],
+        "stages": [real(25, 480, extra=["--strace", "1"]), real(0, 180, extra=["--strace", "0"], tiers=("thorough",), n2="asan"), real(0, 180, tiers=("thorough",), n2="tsan"), real(0, 120, extra=["--wrap", "valgrind -q --error-exitcode=99 --trace-children=no"], tiers=("thorough",), n2="release")],
         "rule": "black box: 4-20 (quick) / 8-64 (thorough) independent tasks at -j 1-16 whose commands print planned byte streams (sizes 0, 1, 2, 4095, 4096, 4097, 8192, 65535, 65536, 65537, 150000, 300000; split over stdout and stderr in chunks of 1-70000 bytes, with and without final newline, with sleeps), exit with codes 0-255 or die by HUP/TERM/KILL/USR1/PIPE, use response files (quotes, UTF-8) and outputs in nested new directories; every agent checks cwd, stdin (/dev/null at EOF), open descriptors (only 0,1,2), stdout/stderr being one pipe, output directories, response file content and its argv; n2's stdout must contain each task's stream exactly once and contiguously, a `failed:` line exactly for the non-zero/signalled tasks, and the exit status must reflect them; every third case runs shell snippets (quotes, $$, redirections, subshells, backticks, UTF-8, tabs) under n2 and, as a differential twin, directly with /bin/sh -c, comparing the files produced, and a sample under strace compares the exact execve argv; non-trivial = at least 2 tasks with >= 4096 bytes of output and overlapping execution (from the agent log)",
         "must_observe": ["agent_events", "task_outputs_checked", "twin_files_compared"],
         "assumptions": REAL_ASSUME,
